@@ -102,6 +102,18 @@ Definition elems_ok (rows_mode : bool) (rows : list (list cell)) (dest : list ds
        | _, _ => false
        end.
 
+(* strict mode, exactly as many columns as flattened fields, a nil result and no zero-valued cell:
+   NO field is left zero. Applies whenever every column is destined to a field: shapes mapped by
+   position (untagged and MIXED tagging alike), and fully tagged shapes whose columns all name fields. *)
+Definition strict_exact_ok (rows_mode strict : bool) (fs : list field) (cols : list string) (rows : list (list cell))
+           (ok_st : bool) (dest : list dst) : bool :=
+  let lv := unwrap_fields fs in
+  if strict && Nat.eqb (List.length cols) (List.length lv) && ok_st &&
+     forallb (forallb cell_nonzero) (rows_used rows_mode rows) &&
+     (negb (all_tagged fs) || (nodup_s (map tag_name fs) && nodup_s cols && names_only_fields fs cols))
+  then elems_ok rows_mode rows dest (fun _ d => filled_from 0 lv d)
+  else true.
+
 Definition spec_orm (rows_mode strict : bool) (sh : dshape) (cols : list string) (rows : list (list cell))
            (st : result unit) (dest : list dst) : bool :=
   (* a single-row query reports ErrNotFound on an empty result *)
@@ -122,6 +134,7 @@ Definition spec_orm (rows_mode strict : bool) (sh : dshape) (cols : list string)
         (* strict mode, fewer columns than destination fields: an error, nothing copied *)
         match st with Err _ => true | _ => false end &&
         (if rows_mode then is_nil dest else match dest with [d] => blank lv d | _ => false end)
+      else if negb (strict_exact_ok rows_mode strict fs cols rows ok_st dest) then false
       else if all_tagged fs && nodup_s (map tag_name fs) && nodup_s cols then
         (* by column name, whatever the column order; a result that can be copied is copied *)
         if ok_st then elems_ok rows_mode rows dest (fun row d => by_name_ok fs cols row (fresh lv) d)
